@@ -37,6 +37,7 @@ def suite(wt, tag):
 
 def main():
     pid, sn = sys.argv[1], sys.argv[2]
+    tag = sys.argv[3] if len(sys.argv) > 3 else ""  # e.g. "r2" for a second round of seeds
     wt = f"/tmp/wt/{pid}"
     sd = f"{wt}/_seed/{sn}"
     env = {"PYTHONPATH": wt}
@@ -60,13 +61,13 @@ def main():
     if not ok:
         print("  REJECTED")
         return 1
-    dst = os.path.join(VERIF, "seeded", f"{pid}_{sn}")
+    dst = os.path.join(VERIF, "seeded", f"{pid}_{tag}{sn}")
     os.makedirs(dst, exist_ok=True)
     for f in ("patch.diff", "demo.py", "README.md"):
         if os.path.exists(f"{sd}/{f}"):
             shutil.copy(f"{sd}/{f}", dst)
     meta = {
-        "id": f"{pid}_{sn}",
+        "id": f"{pid}_{tag}{sn}",
         "breaks_property": pid,
         "source": "independent sub-agent given only the property text and a scratch worktree",
         "files_touched": files.split(),
